@@ -6,7 +6,6 @@ use tracing_ez::span;
 use hir::{HirSpec, Location};
 use mir::{Doc, DocFormat, Ty};
 
-use crate::extractor;
 use crate::extractor::record::extract_schema;
 use crate::extractor::{is_primitive, schema_ref_to_ty, schema_ref_to_ty2, schema_to_ty};
 
@@ -137,7 +136,7 @@ pub fn extract_parameters(op: &Operation, item: &PathItem, spec: &OpenAPI) -> Re
         let body_args = props.map(|(name, param)| {
             let ty = schema_ref_to_ty(param, spec);
             let param: &Schema = param.resolve(spec);
-            let optional = extractor::is_optional(name, param, body);
+            let optional = param.nullable || !body_requires(body, name, spec);
             let name = name.to_string();
             hir::Parameter {
                 name,
@@ -164,6 +163,21 @@ pub fn extract_parameters(op: &Operation, item: &PathItem, spec: &OpenAPI) -> Re
         });
     }
     Ok(inputs)
+}
+
+/// Whether a request body lists `name` as required. For an allOf body the `required` lists live in its
+/// members (each member decides for the properties it contributes), not on the allOf schema itself.
+fn body_requires(body: &Schema, name: &str, spec: &OpenAPI) -> bool {
+    match &body.kind {
+        SchemaKind::AllOf { all_of } => all_of.iter().any(|member| {
+            let member = member.resolve(spec);
+            member.properties_iter(spec).any(|(n, _)| n == name) && body_requires(member, name, spec)
+        }),
+        _ => match body.get_required() {
+            Some(req) => req.iter().any(|s| s == name),
+            None => true,
+        },
+    }
 }
 
 pub fn get_body<'a>(op: &'a Operation, spec: &'a OpenAPI) -> Option<&'a Schema> {
